@@ -194,6 +194,12 @@ def minimize(
           supported.
         - Functions mapping from complex arrays -> float are supported.
 
+    The parameters `hess`, `hessp`, `bounds`, `constraints`, `tol`, and
+    `callback` are passed on to :func:`scipy.optimize.minimize` unchanged,
+    and therefore refer to the optimization variable as seen by that
+    function, i.e. the 1D real array obtained by flattening `x0` (after
+    stacking its real and imaginary parts when it is complex).
+
     For more detail, including descriptions of the optimization methods
     and custom minimizers, refer to the original docs for
     :func:`scipy.optimize.minimize`.
@@ -237,6 +243,12 @@ def minimize(
             args=args,
             jac=jac,
             method=method,
+            hess=hess,
+            hessp=hessp,
+            bounds=bounds,
+            constraints=constraints,
+            tol=tol,
+            callback=callback,
             options=options,
         )  # Return OptimizeResult with x0 as ndarray
         return res.x.astype(x0_dtype)
